@@ -147,8 +147,10 @@ func (lw *lifeWorld) obs(last string) string {
 	}
 	lw.mu.Unlock()
 	state, inst := grpctunnel.VerifReverseServerState(lw.rts)
-	return fmt.Sprintf("last=%s state=%d inst=%d gstop=%s stop=%s serves=[%s] holds=[%s] all=[%s]",
-		last, state, inst, lw.gstop, lw.stop, strings.Join(sv, " "), strings.Join(hs, " "), lw.allIDs())
+	// refuses: what the server's tunnels are told when they ask whether to refuse a new RPC (isClosing)
+	refuses, _ := grpctunnel.VerifReverseServerIsClosing(lw.rts)
+	return fmt.Sprintf("last=%s state=%d refuses=%s inst=%d gstop=%s stop=%s serves=[%s] holds=[%s] all=[%s]",
+		last, state, b01(refuses), inst, lw.gstop, lw.stop, strings.Join(sv, " "), strings.Join(hs, " "), lw.allIDs())
 }
 
 func TestW2Lifecycle(t *testing.T) {
